@@ -527,6 +527,18 @@ def aggregate(prop, tier, verif_seed, records):
             "not_covered": sorted(boot.NOT_IMPORTABLE),
         },
     }
+    # pointer to the last recorded sensitivity run (read from files, NOT measured by this run)
+    try:
+        with open(os.path.join(VERIF_DIR, "seeded", "results.json")) as f:
+            sr = json.load(f)
+        mine = {k: v for k, v in sr.items() if v.get("property") == prop}
+        cov["sensitivity_record"] = {
+            "note": "read from seeded/results.json (last tools_seeded.py run), not measured by this run",
+            "independent_seeded_changes": len(mine),
+            "caught_by_this_check": sum(1 for v in mine.values() if v.get("caught")),
+            "not_caught": sorted(k for k, v in mine.items() if not v.get("caught"))}
+    except Exception:
+        pass
     return {"property_id": prop, "tier": tier, "seed": verif_seed, "level": level,
             "coverage": cov,
             "assumptions": getattr(eng, "ASSUMPTIONS", {}).get(prop, []) + [
